@@ -197,7 +197,12 @@ def count_load(R, fns):
         R.check(any(x[0] == "rv" and x[1] == "!=" for x in g), "COUNT", "create:only-when-absent", where(f, inc[0]), "count grows only when the key was not found (%s)" % g, "entry_count grows although the key exists: %s" % g)
         # LOAD
         gx = gl(f, ex[0], dom)
-        R.check(("incr_entry_count", ">", "state->max_load") in gx, "LOAD", "create:expand-when-over-max-load", where(f, ex[0]), "table expanded when count+1 > max_load", "the load check guarding expansion is %s" % gx)
+        # the incremented count: the variable aws_add_size_checked(entry_count, 1, &X) writes
+        incv = None
+        for ce in f.calls("aws_add_size_checked"):
+            if argstr(f, ce.node, 0).endswith("entry_count") and f.is_const(RU.arg(f, ce.node, 1)) == 1:
+                incv = argstr(f, ce.node, 2)
+        R.check(incv is not None and ((incv, ">", "state->max_load") in gx or ("state->max_load", "<", incv) in gx), "LOAD", "create:expand-when-over-max-load", where(f, ex[0]), "table expanded when count+1 > max_load", "the load check guarding expansion is %s" % gx)
         R.check(inc[0] in RU.reach_from(f, ex[0]) and ex[0] not in RU.reach_from(f, inc[0]), "LOAD", "create:check-before-admit", where(f, inc[0]), "the load check precedes the admission")
     f = fns["s_remove_entry"]
     dec = [e for e in f.field_accesses(rec=ST, field="entry_count", modes=("rw", "w"))]
@@ -391,7 +396,16 @@ def iterator(R, P, fns):
             R.check(ok, "ITER", "limit-kept-only-when-shift-stayed-in-window", where(f, sl[0]), "limit kept only when slot <= last_index < limit",
                     "the limit is kept although the back-shift may have ended at or beyond it (last=%r limit=%r): an entry shifted across the wrap point is visited twice" % (last, lim))
         R.require(n1 >= 1 and n2 >= 1, "iter_delete: limit adjustment traces not found (%d/%d)" % (n1, n2))
-        R.check(argstr(f, rm[0].node, 1, alias=False) == "state->slots[iter->slot]" and ev_dominates(f, rm[0], dec[0], dom) and ev_dominates(f, rm[0], sl[0], dom), "ITER", "removes-current-slot", where(f, rm[0]), "the iterator's current slot is removed first")
+        tgt = RU.resolve(f, RU.arg(f, rm[0].node, 1))
+        if tgt is not None and tgt["k"] == "un" and tgt["op"] == "addr":
+            tgt = RU.resolve(f, tgt["a"][0])
+        cur_slot = False
+        if tgt is not None and tgt["k"] == "index":
+            b_, i_ = RU.resolve(f, tgt["a"][0]), RU.resolve(f, tgt["a"][1])
+            while b_ is not None and b_["k"] == "decay":
+                b_ = RU.resolve(f, b_["a"][0])
+            cur_slot = b_ is not None and b_["k"] == "member" and b_["f"] == "slots" and i_ is not None and i_["k"] == "member" and i_["f"] == "slot" and i_.get("rec") == "aws_hash_iter"
+        R.check(cur_slot and ev_dominates(f, rm[0], dec[0], dom) and ev_dominates(f, rm[0], sl[0], dom), "ITER", "removes-current-slot", where(f, rm[0]), "the iterator's current slot is removed first")
         tsx = Typestate(f, 0, lambda e, s: min(s + 1, 2) if e is sl[0] else s)
         R.check(tsx.exit_states == {1}, "ITER", "slot-steps-back-once", where(f, sl[0]), "slot decremented exactly once")
         stt = [e for e in f.field_accesses(rec="aws_hash_iter", field="status", modes=("w",))]
